@@ -69,12 +69,25 @@ class StepOps:
         self.ev = AbsEval(self)
 
     # ------------------------------------------------------------------ helpers
+    def _module_of(self, node):
+        """the module whose source the expression node comes from (a helper of another module that is evaluated as part of
+        this tool resolves its names - import aliases included - in its own module); nodes of synthetic views: the tool's"""
+        table = self.ctx.pkg.__dict__.get("_node_modules")
+        if table is None:
+            table = {}
+            for m in self.ctx.pkg.modules.values():
+                for x in ast.walk(m.tree):
+                    if isinstance(x, (ast.Call, ast.Name, ast.Attribute)):
+                        table[id(x)] = m
+            self.ctx.pkg.__dict__["_node_modules"] = table
+        return table.get(id(node), self.module)
+
     def _resolved(self, func_node) -> str:
-        r = self.ctx.pkg.resolve_expr_global(self.module, func_node)
+        r = self.ctx.pkg.resolve_expr_global(self._module_of(func_node), func_node)
         return r.qual.split(".")[-1] if r.kind in ("stdlib", "builtin", "lib") else norm(func_node).split(".")[-1]
 
     def _resolved_kind(self, func_node) -> str:
-        return self.ctx.pkg.resolve_expr_global(self.module, func_node).kind
+        return self.ctx.pkg.resolve_expr_global(self._module_of(func_node), func_node).kind
 
     def _lib_unit(self, func_node):
         try:
@@ -292,13 +305,17 @@ class StepOps:
             ref = self._new(env, uniq)
             env["@setrefs"] = tuple(env.get("@setrefs", ())) + (ref[1],)
             return ref
-        if last in ("list", "tuple"):
+        if last in ("list", "tuple") or (last == "deque" and not node.keywords and len(node.args) <= 1):
+            # (a deque without maxlen is a list with two ends)
             if not node.args:
-                return self._new(env, ()) if last == "list" else ("SEQ", ())
+                return self._new(env, ()) if last != "tuple" else ("SEQ", ())
             el = self._elements(args[0], env) if args else None
+            if el is None and args and isinstance(args[0], tuple) and args[0][:1] == ("IT",) \
+                    and self._resolved_kind(node.func) in ("builtin", "stdlib"):
+                el = self._drain(args[0], env)  # (a synchronous constructor runs a source to its end on the spot)
             if el is None:
                 return UNKNOWN
-            return self._new(env, el) if last == "list" else ("SEQ", tuple(el))
+            return self._new(env, el) if last != "tuple" else ("SEQ", tuple(el))
         if last == "cast" and len(args) == 2 and self._resolved_kind(node.func) in ("stdlib", "builtin"):
             return args[1]  # typing.cast is the identity at run time
         if last in ("any", "all") and len(args) == 1:
@@ -311,6 +328,12 @@ class StepOps:
             return ("SEQ", tuple(reversed(el))) if el is not None else UNKNOWN
         if last == "enumerate" and args:
             return ("enum", args[0], kwargs.get("start", args[1] if len(args) > 1 else 0))
+        if last in ("isinstance", "hasattr") and len(node.args) == 2 and args and args[0] is None \
+                and isinstance(node.args[0], (ast.Name, ast.Attribute, ast.Subscript)):
+            # None is an instance of none of the library's protocols and has none of their methods (a retired slot)
+            names = [norm(x).split(".")[-1] for x in (node.args[1].elts if isinstance(node.args[1], ast.Tuple) else [node.args[1]])]
+            if last == "hasattr" or not ({"object", "NoneType"} & set(names)):
+                return False
         if last == "isinstance" and len(node.args) == 2 and args and self._is_iter(args[0]):
             names = [norm(x).split(".")[-1] for x in (node.args[1].elts if isinstance(node.args[1], ast.Tuple) else [node.args[1]])]
             if all(n in ("ACloseable", "AsyncIterator", "AsyncIterable", "AsyncGenerator") for n in names):
@@ -334,22 +357,27 @@ class StepOps:
             return value[{"start": 1, "stop": 2, "step": 3}[name]]
         return UNKNOWN
 
+    def _drain(self, it, env):
+        """everything a source still has, asked for here and now (``*source``, ``list(source)``, ``deque(source)``); None if
+        the source fails on the way"""
+        got: List[Any] = []
+        while True:
+            x = self._pull(it, env)
+            if _is_end(x):
+                return got
+            if isinstance(x, tuple) and x[:1] == ("@raise",):
+                return None
+            got.append(x)
+            if len(got) > 50:
+                return None
+
     def other(self, e, env, ev):
         if isinstance(e, ast.Starred):
             v = ev.eval(e.value, env)
             if isinstance(v, tuple) and v[:1] == ("IT",):
                 # ``*source``: the source is asked until it reports its end, here and now
-                got = []
-                while True:
-                    x = self._pull(v, env)
-                    if _is_end(x):
-                        break
-                    if isinstance(x, tuple) and x[:1] == ("@raise",):
-                        return UNKNOWN
-                    got.append(x)
-                    if len(got) > 50:
-                        return UNKNOWN
-                return ("*", ("SEQ", tuple(got)))
+                got = self._drain(v, env)
+                return ("*", ("SEQ", tuple(got))) if got is not None else UNKNOWN
             return ("*", v)
         if isinstance(e, ast.List):
             # a list display, ``[*xs]`` included: a new list object
@@ -664,6 +692,18 @@ class StepOps:
             if self._is_list(base) and base[1] not in env.get("@setrefs", ()):
                 self._set(env, base, list(self._get(env, base)) + [ev.eval(call.args[0], env)])
                 result = None
+        elif isinstance(f, ast.Attribute) and f.attr in ("popleft", "pop") and len(call.args) <= (0 if f.attr == "popleft" else 1) \
+                and not call.keywords:
+            # ``buffer.popleft()`` / ``stack.pop()`` / ``items.pop(0)`` on a list / deque of the model
+            base = ev.eval(f.value, env)
+            if self._is_list(base) and base[1] not in env.get("@setrefs", ()):
+                items = list(self._get(env, base))
+                idx = 0 if f.attr == "popleft" else (ev.eval(call.args[0], env) if call.args else -1)
+                if not items:
+                    result = ("@raise", "IndexError")
+                elif isinstance(idx, int) and not isinstance(idx, bool) and -len(items) <= idx < len(items):
+                    result = items.pop(idx)
+                    self._set(env, base, items)
         elif isinstance(f, ast.Attribute) and f.attr == "add" and len(call.args) == 1:
             base = ev.eval(f.value, env)
             if self._is_list(base) and base[1] in env.get("@setrefs", ()):
